@@ -199,9 +199,14 @@ class Model:
         class NotAnAgentException(Exception):
             pass
 
-        agent = self.agent_factories[agent_type](self.next_agent_id, self, agent_properties)
+        agent_factory = self.agent_factories[agent_type]
 
+        # reserve the id before the factory runs: a factory (or an agent constructor) that itself creates
+        # agents must not hand the same id out again
+        agent_id = self.next_agent_id
         self.next_agent_id += 1
+
+        agent = agent_factory(agent_id, self, agent_properties)
 
         if not isinstance(agent,Agent):
             raise NotAnAgentException("{} is not an instance of BPTK_Py.Agent. Please only use subclasses of Agent".format(agent))
